@@ -1922,6 +1922,10 @@ def instantiate_special(I, cls, args, kwargs, node):
             src = args[0]
             if isinstance(src, (SymSet,)):
                 return src
+            if n == "frozenset" and (isinstance(deref(src), SymListV) or (isinstance(deref(src), SeqV) and not isinstance(deref(src).n, int))):
+                # the set of the elements of a list of symbolic length: a value determined by
+                # that list (nothing else is known about it here)
+                return I.ghost.set_of_symbolic_list(deref(src), node)
             for x in iterate(I, src, node):
                 set_add(I, s, x, node)
         return s
